@@ -34,7 +34,7 @@ func (c *Ctx) initCG() {
 	}
 	c.cg = &cgCache{edges: map[*ssa.Function][]callEdge{}, addrTaken: map[*ssa.Function]bool{}}
 	for fn := range c.AllFuncs {
-		allInstrs(fn, func(in ssa.Instruction) {
+		allInstrsShallow(fn, func(in ssa.Instruction) {
 			var ops []*ssa.Value
 			ops = in.Operands(ops)
 			ci, isCall := in.(ssa.CallInstruction)
@@ -67,7 +67,7 @@ func (c *Ctx) initCG() {
 			continue
 		}
 		if init := p.Func("init"); init != nil {
-			allInstrs(init, func(in ssa.Instruction) {
+			allInstrsShallow(init, func(in ssa.Instruction) {
 				var ops []*ssa.Value
 				for _, op := range in.Operands(ops) {
 					if op != nil && *op != nil {
@@ -110,7 +110,7 @@ func (c *Ctx) Callees(fn *ssa.Function) []callEdge {
 			}
 		}
 	}
-	allInstrs(fn, func(in ssa.Instruction) {
+	allInstrsShallow(fn, func(in ssa.Instruction) {
 		if mc, ok := in.(*ssa.MakeClosure); ok {
 			cl := mc.Fn.(*ssa.Function)
 			if m := boundMethodTarget(mc); m != nil {
